@@ -452,7 +452,7 @@ func C11(e *core.Env) {
 
 func C04(e *core.Env) {
 	res := e.Res
-	res.Rule = "cases = (unreadable data text, entry point): empty text, every 5th (quick) / every (thorough) proper prefix of two valid documents cut inside the first JSON value, UTF-16/UTF-32/BOM/Latin-1 encodings, YAML/RAML/XML/Rego texts, JSON that JSON-LD rejects (non-string @id, bad @context, bad @type, @value+@id, bad @base, invalid @language, contexts and documents named by a URL that cannot be loaded) x Validate / ValidateWithConfiguration / ValidateCompiled / ValidateCompiledWithConfiguration and the built acv binary (validate, normalize); expected: an error (non-zero exit, nothing on stdout), never a report; " +
+	res.Rule = "cases = (unreadable data text, entry point): empty text, every 5th (quick) / every (thorough) proper prefix of two valid documents cut inside the first JSON value, UTF-16/UTF-32/BOM/Latin-1 encodings, YAML/RAML/XML/Rego texts, JSON that JSON-LD rejects (non-string @id, bad @context, bad @type, @value+@id, bad @base, invalid @language, contexts and documents named by a URL that cannot be loaded, conflicting @index values found only while the node objects are merged) x Validate / ValidateWithConfiguration / ValidateCompiled / ValidateCompiledWithConfiguration (also with the debug flag set) and the built acv binary (validate, normalize); expected: an error (non-zero exit, nothing on stdout), never a report; " +
 		"non-trivial = the text is not empty; distinct by (text, entry)"
 	texts := map[string]string{"empty": "", "space": "   \n", "open-brace": "{", "open-bracket": "[", "raml": PoolDataGarbage, "yaml": "a: 1\nb: [2\n",
 		"xml": "<?xml version=\"1.0\"?><a/>", "rego": "package x\np { true }\n", "single-quote": "{'@id': 'x'}", "trailing-comma": `{"@id": "http://x/a",}`,
@@ -467,7 +467,11 @@ func C04(e *core.Env) {
 		"jsonld-remote-context-in-array":    `{"@context": [{"ex": "http://example.org/ns#"}, "http://127.0.0.1:1/context.jsonld"], "@id": "http://x/a", "@type": "ex:Thing"}`,
 		"jsonld-remote-scoped-context":      `{"@context": {"ex": "http://example.org/ns#"}, "@id": "http://x/a", "@type": "ex:Thing", "ex:child": {"@context": "http://127.0.0.1:1/context.jsonld", "@id": "http://x/b"}}`,
 		"jsonld-remote-context-https":       `{"@context": "https://127.0.0.1:1/context.jsonld", "@graph": [{"@id": "http://x/a"}]}`,
-		"jsonld-document-url-as-string":     `"http://127.0.0.1:1/document.jsonld"`}
+		"jsonld-document-url-as-string":     `"http://127.0.0.1:1/document.jsonld"`,
+		// documents every node object of which is fine (expansion succeeds) but which JSON-LD rejects as a whole while merging the
+		// node objects: one node given two different @index values
+		"jsonld-conflicting-indexes-container": `{"@context": {"ex": "http://example.org/ns#", "byName": {"@id": "ex:child", "@container": "@index"}}, "@id": "http://x/a", "@type": "ex:Thing", "byName": {"one": {"@id": "http://x/n", "@type": "ex:Thing"}, "two": {"@id": "http://x/n"}}}`,
+		"jsonld-conflicting-indexes-expanded":  `[{"@id": "http://x/a", "@type": ["http://example.org/ns#Thing"], "http://example.org/ns#child": [{"@id": "http://x/n", "@index": "one", "@type": ["http://example.org/ns#Thing"]}, {"@id": "http://x/n", "@index": "two"}]}]`}
 	u16 := utf16.Encode([]rune(PoolDataGood))
 	var b16 bytes.Buffer
 	b16.Write([]byte{0xff, 0xfe})
@@ -495,7 +499,11 @@ func C04(e *core.Env) {
 	}
 	rc := config.DefaultReportConfiguration()
 	entries := map[string]func(d string) (string, error){
-		"Validate": func(d string) (string, error) { return pkg.Validate(PoolProfileMin, d, false, nil) },
+		"Validate":        func(d string) (string, error) { return pkg.Validate(PoolProfileMin, d, false, nil) },
+		"Validate(debug)": func(d string) (string, error) { return pkg.Validate(PoolProfileMin, d, true, nil) },
+		"ValidateCompiledWithConfiguration(debug)": func(d string) (string, error) {
+			return pkg.ValidateCompiledWithConfiguration(compiled, d, true, nil, clockA, rc)
+		},
 		"ValidateWithConfiguration": func(d string) (string, error) {
 			return pkg.ValidateWithConfiguration(PoolProfileLevels, d, false, nil, clockA, rc)
 		},
